@@ -209,6 +209,9 @@ def rule_apply(ctx):
         for x in T.subterms(p.value):
             if x[0] == 'call' and T.dotted(x[1]) == 'partial' and x[2] == (('name', 'apply_along_axis'), P_('obj'), ('attr', SELF, 'numpy_method')):
                 okg = True
+            # (functools.partial applications are 'partial' terms: function, bound positional arguments, bound keywords)
+            if x[0] == 'partial' and x[1] == ('name', 'apply_along_axis') and tuple(x[2]) == (P_('obj'), ('attr', SELF, 'numpy_method')) and not x[3]:
+                okg = True
     init = ctx.fn(TR + '_NumpyDesc.__init__')
     evi = run(ctx, init)
     oki = any(e.kind == 'store_attr' and e.b == 'numpy_method' and e.c == P_('numpy_method') for p in evi.paths for e in p.events)
